@@ -20,7 +20,7 @@ CHECKS = {
    text="Reference validator with an independent CRC-32C agrees on every generated chunk; accepted chunks re-encode to the input; every 1-bit flip (exhaustive up to 4 KiB), sampled 2/3-bit flips and a <=32-bit burst at every bit offset of each accepted chunk are rejected; 44 payload-length classes around 2^k and at the top of the 16-bit length field are covered in both tiers, and 63 oversize slices (a chunk followed by 16383 .. 2^20 zero words, CRC sealed over all of it) must be rejected.",
    note="2/3-bit flips are sampled, not exhaustive. Burst bit order = transmission order (LSB first).", ref="DESIGN.md section 4 C03"),
  "C04": dict(engine="proptest+libfuzzer", technique="metamorphic testing over arrival orders (all n! up to 6 chunks) + differential against direct decoding + single-fault injection",
-   text="Every arrival order (identity, reversal, adjacent transpositions, a generated permutation, all n! for <= 6 chunks) gives the same result; fault-free result equals direct decoding of the concatenation; every injected fault (drop, duplicate, foreign board, foreign chip, EOM toggle, resize, renumbered id, bytes moved between chunks, one id lost and another repeated) is rejected.",
+   text="Every arrival order (identity, reversal, adjacent transpositions, a generated permutation, all n! for <= 6 chunks) gives the same result; fault-free result equals direct decoding of the concatenation; every injected fault (drop, duplicate, foreign board, foreign chip, EOM toggle, resize, renumbered id, bytes moved between chunks, one id lost and another repeated, stray flag-less chunks behind the end of the message) is rejected.",
    note="Orders beyond 6 chunks are sampled.", ref="DESIGN.md section 4 C04"),
  "C05": dict(engine="proptest+libfuzzer", technique="differential testing against an independent reference validator + accessor model + round trip (proptest, libFuzzer)",
    text="Reference validator agreement, channel lists through an independent readout table, waveform_at for all 79 channels (present/absent; ascending, second pass, descending and scattered order on one packet object), scalar accessors, byte-exact re-encoding; constructed packets with one-rule mutations, systematic single-channel masks, all values of the four enum-like header bytes, and the largest packets of the format (60-79 channels x 400-511 samples).",
